@@ -60,4 +60,8 @@ import Bnum.Props.C01
 #print axioms Bnum.C01.i_saturating_abs
 #print axioms Bnum.C01.i_saturating_add_side
 #print axioms Bnum.C01.i_saturating_sub_side
+#print axioms Bnum.C01.u_midpoint_spec
+#print axioms Bnum.C01.i_midpoint_spec
+#print axioms Bnum.C01.u_abs_diff
+#print axioms Bnum.C01.i_abs_diff
 #print axioms Bnum.C01.u_checked_neg_proj
